@@ -352,16 +352,23 @@ package variants
 //@ pred scalarInv(v *Variant) = vinv(v) && v.typ != Array
 //@ pred flatInv(v *Variant) = vinv(v) && (v.typ == Array ==>
 //@     (forall i int :: 0 <= i && i < len(arrOf(v)) ==> arrOf(v)[i] == nil || scalarInv(arrOf(v)[i])))
+//@ spec elemEq(a *Variant, b *Variant) bool = (a == nil || b == nil) ? a == b : (a.typ == b.typ && goeq(a.value, b.value))
+//@ spec notObject(a *Variant) bool = a == nil || a.typ != Object
 //@ func (c *Variant) Equals
 //@   requires flatInv(c) && (obj != nil ==> flatInv(obj))
 //@   ensures[C20] obj == nil ==> !result
 //@   ensures[C20] obj != nil && !(c.typ == Array && obj.typ == Array) && c.typ != Object ==> result == sameValue(c, obj)
 //@   ensures[C20] obj != nil && c.typ == Array && obj.typ == Array && len(arrOf(c)) != len(arrOf(obj)) ==> !result
+// two arrays (of anything but objects) are equal iff they have the same length and equal elements position by position
+//@   ensures[C20] obj != nil && c.typ == Array && obj.typ == Array && result ==>
+//@       (forall i int :: 0 <= i && i < len(arrOf(c)) && notObject(arrOf(c)[i]) ==> elemEq(arrOf(c)[i], arrOf(obj)[i]))
 //@   assigns nothing
 //@   nopanic
 //@   decreases c.typ == Array ? 1 : 0
 //@   loop 0
 //@     invariant -1 <= rangeindex && rangeindex < len(a1)
+//@     invariant forall i int :: 0 <= i && i <= rangeindex && notObject(a1[i]) ==> elemEq(a1[i], a2[i])
+//@     invariant a1 == arrOf(c) && a2 == arrOf(obj) && len(a1) == len(a2)
 //@     decreases len(a1) - rangeindex
 
 // ---------------------------------------------------------------------------------------------
